@@ -810,7 +810,29 @@ func (m *Machine) callBuiltin(caller *frame, fn *ssa.Builtin, args []Value) Valu
 	case "recover":
 		return m.doRecover(caller)
 	case "min", "max":
-		m.abort("unsupported builtin min/max")
+		isMin := fn.Name() == "min"
+		var pt types.Type
+		if st, ok := fn.Type().(*types.Signature); ok && st.Params().Len() > 0 {
+			pt = st.Params().At(0).Type()
+		}
+		acc := args[0]
+		for _, b := range args[1:] {
+			var lt *term.T
+			if isMin {
+				lt = m.binop(token.LSS, pt, b, acc, pt).(*term.T)
+			} else {
+				lt = m.binop(token.GTR, pt, b, acc, pt).(*term.T)
+			}
+			switch x := acc.(type) {
+			case *term.T:
+				acc = C.Ite(lt, b.(*term.T), x)
+			default:
+				if m.Decide(lt) {
+					acc = b
+				}
+			}
+		}
+		return acc
 	case "ssa:wrapnilchk":
 		if p, ok := args[0].(*Value); ok && p == nil {
 			m.throw("value method called using nil pointer")
